@@ -24,7 +24,11 @@ Record msg_row := {
                                         which registers every request type of the descriptor as an sdk.Msg *)
   m_server_method : bool;            (* keeper.msgServer declares the method with this request type *)
   m_services_registered : bool;      (* module.go RegisterServices calls types.RegisterMsgServer *)
-  m_validate_checks_creator : bool   (* ValidateBasic parses msg.Creator *)
+  m_validate_checks_creator : bool;  (* ValidateBasic parses msg.Creator *)
+  m_amino : option string            (* the name under which the amino-JSON sign bytes carry the type: registered with
+                                        RegisterConcrete in a function init() applies to the codec behind ModuleCdc, and
+                                        GetSignBytes is MustSortJSON(ModuleCdc.MustMarshalJSON(msg)); None: the sign
+                                        bytes are the bare field object *)
 }.
 
 Fixpoint list_string_eqb (a b : list string) : bool :=
@@ -70,6 +74,19 @@ Fixpoint nodup_strings (l : list string) : bool :=
   | [] => true
   | x :: l' => negb (mem_string x l') && nodup_strings l'
   end.
+
+(* amino names of the rows that have one *)
+Fixpoint amino_names (t : list msg_row) : list string :=
+  match t with
+  | [] => []
+  | r :: t' => match m_amino r with Some n => n :: amino_names t' | None => amino_names t' end
+  end.
+
+Definition amino_named_b (r : msg_row) : bool := match m_amino r with Some _ => true | None => false end.
+
+(* every message type signs under a name, and no two under the same *)
+Definition amino_table_ok (t : list msg_row) : bool :=
+  forallb amino_named_b t && nodup_strings (amino_names t).
 
 (* the propositional reading of msg_ok (equivalence proved in Proofs/MsgTableProofs.v) *)
 Definition signed_by_creator (r : msg_row) : Prop := m_signers r = SignerFields ["Creator"].
